@@ -68,5 +68,10 @@ def run(rep, tier, seed, replay):
     if v and not found:
         found = True
         rep.violation(v)
+    from props.common import concurrent_hostset
+    v = concurrent_hostset(rep, PROP, seed + 13, tier)
+    if v and not found:
+        found = True
+        rep.violation(v)
     if not pr["ok"] and not found:
         rep.violation({"kind": "broken-tie", "theorem": pr.get("broken"), "detail": pr.get("tail"), "searched": "oracle holds on every observed snapshot"}, found_input=False)
